@@ -37,7 +37,7 @@ def parse_spec(path):
                 harness=None, defines={}, cbmc_flags=[], timeout={}, mode='proof', unwind=None,
                 contracts={}, replace_extra={}, loops=[], externals={}, assumptions=[], mutants=[],
                 allow_nobody=[], includes=[], covers=[], variants=[], not_decided=[], path=path, goto_flags=[],
-                memlimit_gb=None, object_bits=None, instrument='dfcc', pins={}, status='active')
+                memlimit_gb=None, object_bits=None, instrument='dfcc', pins={}, status='active', pre_unwind=None)
     cur = None
     buf = []
 
@@ -109,6 +109,10 @@ def parse_spec(path):
                 # "@@status wip <why>": unit is under construction: never run by a property check, never counted
                 spec['status'] = arg.split()[0]
                 spec['status_note'] = arg
+            elif key == 'pre_unwind':
+                # "@@pre_unwind f.24:6": legacy units only - unwind these loops (with unwinding assertions) BEFORE the
+                # loop-contract pass (for a loop that legacy --apply-loop-contracts cannot take, e.g. a nested do-while)
+                spec['pre_unwind'] = arg.strip()
             elif key == 'cex':
                 # "@@cex unwind=5 NCAP=2 NZCAP=3": bound and capacity defines of the counterexample SEARCH (tools/witness.py)
                 for kv in arg.split():
@@ -558,6 +562,10 @@ def build_unit(spec, tier, workdir, repo_root=None, variant_defs=(), extra_defs=
         # needs a loop-free body), then replace/enforce
         gbm = os.path.join(workdir, 'm.gb')
         steps = [['goto-instrument', '--apply-loop-contracts', gb0, gbm]]
+        if spec.get('pre_unwind'):
+            gbu = os.path.join(workdir, 'u.gb')
+            steps = [['goto-instrument', '--unwindset', spec['pre_unwind'], '--unwinding-assertions', gb0, gbu],
+                     ['goto-instrument', '--apply-loop-contracts', gbu, gbm]]
         if cex_mode or drop_loops:
             steps, gbm = [], gb0
         cmd2 = ['goto-instrument']
